@@ -34,6 +34,9 @@ Value& STRExpression::value(Context & ctx) const
   Value& val = _args[0]->value(ctx);
   Value v(Value::type_literal);
 
+  /* a table can come through an opaque argument */
+  if (val.type().level() > 0)
+    throw RuntimeError(EXC_RT_FUNC_ARG_TYPE_S, KEYWORDS[FUNC_STR]);
   if (!val.isNull())
     switch (val.type().major())
     {
